@@ -367,6 +367,7 @@ var (
 	vCli    Client
 	vAddr   string
 	vE2EErr error
+	vStuck  bool
 )
 
 func vHandler(_ context.Context, hctx *HandlerContext) error {
@@ -407,6 +408,9 @@ func vStartE2E() error {
 }
 
 func VerifRpcextraClose() {
+	if vStuck {
+		return
+	}
 	if vCli != nil {
 		_ = vCli.Close()
 	}
@@ -450,7 +454,27 @@ func vE2E(a []string) string {
 	vMu.Lock()
 	vCur = sc
 	vMu.Unlock()
-	resp, err := vCli.Do(context.Background(), "tcp4", vAddr, req)
+	if vStuck {
+		return "timeout"
+	}
+	type doRes struct {
+		resp *Response
+		err  error
+	}
+	ch := make(chan doRes, 1)
+	go func() {
+		resp, err := vCli.Do(context.Background(), "tcp4", vAddr, req) // no deadline: a context deadline would be written into the extra
+		ch <- doRes{resp, err}
+	}()
+	var resp *Response
+	var err error
+	select {
+	case r := <-ch:
+		resp, err = r.resp, r.err
+	case <-time.After(20 * time.Second):
+		vStuck = true // the call never completes (e.g. the server dropped the request): do not wait again in this process
+		return "timeout"
+	}
 	vMu.Lock()
 	vCur = nil
 	vMu.Unlock()
